@@ -156,6 +156,13 @@ func genNestingDoc(r vlib.Rnd, n int) ([]byte, string) {
 	} else {
 		body += strings.Repeat(close, levels)
 	}
+	if vlib.Chance(r, 2, 3) {
+		// the deep part is a property of an object whose first lines carry what a bracket counter has to skip: a note, a
+		// comment, a string with brackets in it
+		pro := vlib.Pick(r, []string{"{ // note [[[\n", "{ # comment {{{\n", "{\n\"s\": \"[[[{{{\", // {optional: true}\n", "{ /* [[[\n{{{ */\n", "{\n###\n[[[\n###\n"})
+		body = pro + "\"deep\": " + body + "\n}"
+		shape += "+prologue"
+	}
 	var doc string
 	switch r.Intn(4) {
 	case 0:
@@ -167,13 +174,21 @@ func genNestingDoc(r vlib.Rnd, n int) ([]byte, string) {
 	default:
 		doc = "JSIGHT 0.3\n\nGET /a\n  200\n    " + body + "\n"
 	}
+	switch r.Intn(3) {
+	case 0:
+		doc = strings.ReplaceAll(doc, "\n", "\r\n")
+		shape += "+crlf"
+	case 1:
+		doc = strings.ReplaceAll(doc, "\n", "\r")
+		shape += "+cr"
+	}
 	return []byte(doc), shape
 }
 
 // c01Nesting: nesting depth from a few levels to more than a million (a 3 MB document): the build returns a catalog or
 // an error, in time; it does not exhaust the stack of the process.
 var c01Nesting = &vlib.Check{
-	Prop: "C01", Name: "nesting", Quick: 40, Thorough: 1200,
+	Prop: "C01", Name: "nesting", Quick: 120, Thorough: 2400,
 	Oracle: vlib.IsoOracle, Inner: c01Inner,
 	Gen: func(t *rapid.T) *vlib.Case {
 		r := vlib.RapidRnd{T: t}
